@@ -178,7 +178,9 @@ class Clock(object):
 def ts(epoch, spelling='Z'):
     """render epoch seconds as xs:dateTime in one of the spellings of C04"""
     base = _time.strftime('%Y-%m-%dT%H:%M:%S', _time.gmtime(epoch))
-    return {'Z': base + 'Z', 'fracZ': base + '.250Z', 'noZ': base, 'frac': base + '.250'}[spelling]
+    return {'Z': base + 'Z', 'fracZ': base + '.250Z', 'noZ': base, 'frac': base + '.250',
+            # a fraction above one half: the instant lies within the second that starts at `epoch` (rounding would move it)
+            'fracHighZ': base + '.900Z'}[spelling]
 
 
 # ------------------------------------------------------------------ entities
